@@ -204,6 +204,11 @@ func (s *PathState) compute(v ssa.Value) *Term {
 		}
 		return mk("lookup", aux, "lookup@"+instrID(x)+"{"+a.K+"["+i.K+"]}", v, a, i)
 	case *ssa.Slice:
+		if al, ok := x.X.(*ssa.Alloc); ok && al.Comment == "makeslice" && x.Low == nil && x.High != nil {
+			// make([]T, n) with constant n is lowered to new [n]T + slice
+			l := s.T(x.High)
+			return mk("make", "slice", "makeslice@"+instrID(al), v, l)
+		}
 		a := s.T(x.X)
 		args := []*Term{a}
 		k := "slice(" + a.K
